@@ -461,7 +461,7 @@ theorem key_complete (cfg : Cfg) {kc : Byte} {kr k after : List Byte} (hk : Key 
     ∃ q, Pos q after (p + (kr.length + 1)) true ∧
       (if (kc == 0x22 || kc == 0x27) = true then parseQuoted cfg kc (n + 1) [] 0 (mv X)
        else if inUnquoted kc = true then
-         (Code.ok, (parseUnquoted (n + 1) [] X).1, (parseUnquoted (n + 1) [] X).2)
+         ((if (parseUnquoted (n + 1) [] X).1.length > cfg.maxStrLen then Code.noMemory else Code.ok), (parseUnquoted (n + 1) [] X).1, (parseUnquoted (n + 1) [] X).2)
        else (Code.invalid, [], X)) = (.ok, k, q) := by
   generalize hkt : kc :: kr = kt at hk
   cases hk with
@@ -476,7 +476,7 @@ theorem key_complete (cfg : Cfg) {kc : Byte} {kr k after : List Byte} (hk : Key 
     · have : p + 1 + body.length + 1 = p + ((body ++ [kc]).length + 1) := by simp; omega
       rw [← this]; exact hq'.pos
     · simp only [k3, ↓reduceIte, he, List.reverse_nil, List.nil_append]
-  | bare _ hne hall =>
+  | bare _ hne hall hlen =>
     subst hkt
     have hc := hall kc (List.mem_cons_self ..)
     obtain ⟨_, _, k3⟩ := inUnquoted_facts hc
@@ -484,6 +484,7 @@ theorem key_complete (cfg : Cfg) {kc : Byte} {kr k after : List Byte} (hk : Key 
       (by simp; omega)
     refine ⟨Y, by simpa using hSY.pos, ?_⟩
     simp only [k3, Bool.false_eq_true, ↓reduceIte, hc, hY, List.reverse_nil, List.nil_append]
+    rw [if_neg (by omega)]
 
 theorem value_head_d {cfg : Cfg} {L : Nat} {t : List Byte} {v : Val} (h : Value cfg L t v) :
     ∃ c cs, t = c :: cs ∧ Tok c ∧ c ≠ 0x5D ∧ c ≠ 0x7D := by
